@@ -12,11 +12,11 @@ def run(rep, pid, thorough):
 def run_pipeforms(rep, pid):
     """Pipe / PipeOp / PipeN / PipeOpN for every arity 1..25 over non-commuting operators (PipeForms.tla)."""
     text = 'SPECIFICATION Spec\nINVARIANTS Composition EmitCase\n'
-    pp.run(rep, pid, [('pipeforms', text)], modes='sync', module='PipeForms', replay_cmd='replay-pipeforms', class_props={'values': ['C04', 'C12'], 'panic': ['C04', 'C07']}, prefix='pipeforms.')
+    pp.run(rep, pid, [('pipeforms', text)], modes='sync', module='PipeForms', replay_cmd='replay-pipeforms', class_props={'values': ['C04', 'C12'], 'panic': ['C04', 'C07'], 'hang': ['C04', 'C07']}, prefix='pipeforms.')
 
 
 def replay_case(pid, path):
     import json
     if json.load(open(path))['replay'].get('module') == 'PipeForms':
-        return pp.replay_case(pid, path, replay_cmd='replay-pipeforms', class_props={'values': ['C04', 'C12'], 'panic': ['C04', 'C07']})
+        return pp.replay_case(pid, path, replay_cmd='replay-pipeforms', class_props={'values': ['C04', 'C12'], 'panic': ['C04', 'C07'], 'hang': ['C04', 'C07']})
     return pp.replay_case(pid, path, replay_cmd='replay-creation', class_props=CLASS_PROPS)
